@@ -92,6 +92,18 @@ CHECKS = {
             "partially annotated fixture functions; the rendered stub is evaluated and compared position by position with the table written "
             "from the property text. Bounded tree exhausted.",
             TRUST + "Finite selectors: exhausting the path tree equals complete enumeration of the bounded matrix (stated in the evidence rule).", "DESIGN.md#C13"),
+    "C01": (True, "model_checking",
+            "symbolic execution of the whole run->store->stub pipeline on tape-decoded call histories, k symbolic (CrossHair+z3); stub text evaluated by an independent evaluator; membership oracle",
+            "Per path the real tracer, logger, SQLite store, decoder, get_stub, rewriters and renderers run on a call history decoded from a symbolic "
+            "tape, with k a solver integer; the emitted stub TEXT is evaluated with only the names it provides and every observed argument, return and "
+            "yield value must be a member of the annotation at its position. Bounded trees exhausted in the quick tier.",
+            TRUST + "Frames are the C02 environment model; SQLite is real (concrete rows per path).", "DESIGN.md#C01"),
+    "C10": (True, "model_checking",
+            "symbolic execution of cli.print_stub_handler / cli.main over solver-chosen sequences of valid and stale rows (CrossHair+z3); differential oracle against the decodable subsequence",
+            "Every sequence (length 3 quick / 4 thorough) over 4 decodable and 14 stale row kinds, with and without -v, is pushed through the real "
+            "CLI handler (and through cli.main with argv for shorter sequences): exit status 0, stdout identical to the run on the decodable rows "
+            "alone, exactly the skipped count on stderr, 'No traces found' iff nothing decodes.",
+            TRUST + "Finite selectors: the solver's role is branch feasibility; exhausting the tree equals complete enumeration of the bound.", "DESIGN.md#C10"),
 }
 
 NOT_APPLICABLE = {
